@@ -94,6 +94,34 @@ def param_case(cid, cfg, observed):
             f"{cbool(cfg['method'] == 'grid')} {cbool(cfg['method'] == 'uniform')} {observed}")
 
 
+def param_multi_oracle(seed):
+    """several parameters at once, the PRNG keys given as a dictionary written in any order: every key's samples come from
+    that key's own table / range, at every call"""
+    jax, jnp, np, eqx, jinns = jx()
+    rng = random.Random(seed)
+    fails = []
+    n, b = 8, 3
+    table = np.arange(n, dtype=float) * 7.0 + 100.0
+    for trial in range(4):
+        names = ["nu", "theta", "alpha"]
+        order = names if trial == 0 else rng.sample(names, 3)
+        ks = jax.random.split(jax.random.PRNGKey(seed + trial), 3)
+        keys = {nm: k for nm, k in zip(order, ks)} if trial % 2 == 1 or trial == 0 else jax.random.PRNGKey(seed + trial)
+        case = {"what": "param_multi", "order": order, "dict_keys": isinstance(keys, dict), "seed": seed}
+        try:
+            g = jinns.data.DataGeneratorParameter(keys, n, b, {"theta": (10.0, 11.0), "alpha": (-3.0, -2.0)}, "uniform", {"nu": jnp.asarray(table)})
+            for call in range(4):
+                g, bt = g.get_batch()
+                nu = np.asarray(bt["nu"]).ravel(); th = np.asarray(bt["theta"]).ravel(); al = np.asarray(bt["alpha"]).ravel()
+                if not all(x in table for x in nu):
+                    fails.append((f"parameter nu (user table) at call {call}: batch {nu.tolist()} is not made of rows of its table", case)); break
+                if not (np.all((th >= 10.0) & (th <= 11.0)) and np.all((al >= -3.0) & (al <= -2.0))):
+                    fails.append((f"parameters theta / alpha at call {call}: batches {th.tolist()} / {al.tolist()} are not in their own ranges [10, 11] / [-3, -2]", case)); break
+        except Exception as ex:
+            fails.append((f"several parameters with keys {'as a dictionary' if isinstance(keys, dict) else 'as one key'} raised {type(ex).__name__}: {str(ex)[:150]}", case))
+    return fails
+
+
 def multi_oracle(seed):
     """per-network loaders: each network's batch pairs its own input / value / parameter rows, whatever the
     order in which the three dictionaries were written; a network without observations gets an empty entry"""
@@ -172,6 +200,8 @@ def generate(tier, seed, casedir, variant):
                     cid += 1
     for f, case in multi_oracle(rng.randrange(1 << 30)):
         viol.append({"detail": f, "case": case})
+    for f, case in param_multi_oracle(rng.randrange(1 << 30)):
+        viol.append({"detail": f, "case": case})
     write_cases(casedir, "C15", "R_C15", variant, cases, chunk=200)
     return dict(meta=meta, oracle_violations=viol, evaluations=len(cases) + 1, distinct_nontrivial=len(nontrivial),
                 rule="observation loaders: random (n, b, columns, flat/2-D tables) with histories of two epochs + 1; parameter loaders: every (table?, range?, table shape, method) combination; multi-network loader histories with the three dictionaries written in independent key orders; non-trivial = more than one batch per epoch (obs) / every combination (param)",
@@ -191,6 +221,8 @@ def replay(rep, casedir, variant):
         cases.append(param_case(0, cfg, observed))
         if observed != param_expected(cfg):
             viol.append({"detail": f"parameter key built as {observed}, expected {param_expected(cfg)}", "case": cfg})
+    elif cfg.get("what") == "param_multi":
+        viol = [{"detail": f, "case": c} for f, c in param_multi_oracle(cfg.get("seed", 0))]
     else:
         viol = [{"detail": f, "case": c} for f, c in multi_oracle(cfg.get("seed", 0))]
     write_cases(casedir, "C15", "R_C15", variant, cases)
